@@ -181,6 +181,7 @@ func c13Batches(r *vf.Run, sid string, sp *serverProc, rng *rand.Rand, pool []c0
 		if !r.Want(bid) {
 			continue
 		}
+		rng := r.RNG(bid) // per-case stream: a replay of this batch alone draws the same batch
 		size := rng.Intn(21)
 		if b%15 == 0 {
 			size = 0
@@ -317,6 +318,7 @@ func c13Driver(r *vf.Run, sid string, sp *serverProc, rng *rand.Rand, ds *gen.Da
 		if !r.Want(qid) {
 			continue
 		}
+		rng := r.RNG(qid)
 		e := gen.Expr(rng, ds, cols, rng.Intn(4), 3)
 		gb := gen.GroupBy(rng, ds, rng.Intn(4), 2000)
 		if i%8 == 3 {
